@@ -185,10 +185,48 @@ class CallGraph:
                         out.append(Ref("dispatch", "__repr__", n, True, n))
                         out.append(Ref("dispatch", "__str__", n, True, n))
                 elif isinstance(n, ast.FormattedValue) and not isinstance(n.value, ast.Constant):
-                    out.append(Ref("dispatch", "__repr__", n, True, None))
-                    out.append(Ref("dispatch", "__str__", n, True, None))
+                    a0 = n.value
+                    is_pos = (isinstance(a0, ast.Name) and a0.id == "pos") or \
+                             (isinstance(a0, ast.Attribute) and a0.attr == "pos")
+                    if is_pos and "SourcePos" in self.model.classes:
+                        sp = self.model.classes["SourcePos"].methods.get("__repr__")
+                        if sp is not None:
+                            out.append(Ref("func", sp, n, True, None))
+                    elif self._host_string(func, a0):
+                        pass        # formatting a host str runs no repo code
+                    else:
+                        out.append(Ref("dispatch", "__repr__", n, True, None))
+                        out.append(Ref("dispatch", "__str__", n, True, None))
         self._refs[func] = out
         return out
+
+    def _host_string(self, func, e, depth=0):
+        """Is the expression certainly a host str?  Literals, f-strings, concatenations of those, locals assigned only
+        such expressions, and calls of module functions all of whose returns are such expressions."""
+        if isinstance(e, ast.JoinedStr) or (isinstance(e, ast.Constant) and isinstance(e.value, str)):
+            return True
+        if isinstance(e, ast.BinOp) and isinstance(e.op, ast.Add):
+            return self._host_string(func, e.left, depth) or self._host_string(func, e.right, depth)
+        if isinstance(e, ast.Call) and isinstance(e.func, ast.Name) and e.func.id in ("str", "repr"):
+            return True
+        if depth > 2:
+            return False
+        if isinstance(e, ast.Name):
+            vals = []
+            for n in ast.walk(func.node):
+                if isinstance(n, ast.Assign) and any(isinstance(t, ast.Name) and t.id == e.id for t in n.targets):
+                    vals.append(n.value)
+                elif isinstance(n, (ast.AugAssign, ast.For, ast.With, ast.NamedExpr, ast.ExceptHandler, ast.arg)):
+                    tgt = getattr(n, "target", None)
+                    nm = n.arg if isinstance(n, ast.arg) else n.name if isinstance(n, ast.ExceptHandler) else None
+                    if nm == e.id or (tgt is not None and any(isinstance(x, ast.Name) and x.id == e.id for x in ast.walk(tgt))):
+                        return False
+            return bool(vals) and all(self._host_string(func, v, depth + 1) for v in vals)
+        if isinstance(e, ast.Call) and isinstance(e.func, ast.Name) and e.func.id in func.module.funcs:
+            callee = func.module.funcs[e.func.id]
+            rets = [r.value for r in ast.walk(callee.node) if isinstance(r, ast.Return)]
+            return bool(rets) and all(r is not None and self._host_string(callee, r, depth + 1) for r in rets)
+        return False
 
     def _resolve_chain(self, func, module, locs, inner_imports, d, node, call):
         head = d[0]
